@@ -8,12 +8,13 @@ import _checker_common as K
 ANN_POOL = ['int', 'int', 'str', 'float', 'bool', 'List[int]', 'list[int]', 'Dict[str, int]', 'Optional[int]', 'Union[int, str]',
             'Tuple[int, str]', 'Tuple[int, ...]', 'Set[int]', 'P', 'Any', 'Iterable[int]', 'Iterable[int]', 'Optional[Iterable[int]]', 'Sequence[str]', 'int | None',
             'Literal[1, 2]', 'Type[P]', 'None', "'P'", "List['C1']", "Optional['P']"]
+DOC_POOL = ['int', 'str', 'float', 'bool', 'List[int]', 'Dict[str, int]', 'Optional[int]', 'Union[int, str]']
 BARE_POOL = ['list', 'List', 'dict', 'Dict', 'set', 'Set', 'frozenset', 'FrozenSet', 'tuple', 'Tuple', 'type', 'Type', 'Callable', 'Iterable', 'Sequence']
 RET_POOL = ['int', 'str', 'None', 'None', 'List[int]', 'Optional[int]', 'P', 'Any', 'bool', 'Tuple[int, str]']
 NEEDLES = [None] * 6 + ['*args', '@staticmethod', '@pedantic', '@{name}.setter', 'mail me: a@b.c', '**kwargs', '@require_kwargs']
 PRELUDE = '''from typing import *
 from functools import wraps
-from pedantic import pedantic, pedantic_class, require_kwargs
+from pedantic import pedantic, pedantic_class, require_kwargs, pedantic_require_docstring
 from pedantic import pedantic as ped
 from _checker_common import P, C1, C2, G, U, MI, NT1, NT2
 def _BODY(idx, received):
@@ -28,8 +29,8 @@ def passthru(f):
     def w(*a, **k): return f(*a, **k)
     return w
 '''
-TWIN_PRELUDE = PRELUDE.replace('from pedantic import pedantic, pedantic_class, require_kwargs\nfrom pedantic import pedantic as ped\n',
-                               'pedantic = pedantic_class = require_kwargs = ped = lambda x: x\n')
+TWIN_PRELUDE = PRELUDE.replace('from pedantic import pedantic, pedantic_class, require_kwargs, pedantic_require_docstring\nfrom pedantic import pedantic as ped\n',
+                               'pedantic = pedantic_class = require_kwargs = ped = pedantic_require_docstring = lambda x: x\n')
 LISTED = ['__init__', '__str__', '__repr__', '__hash__']
 
 
@@ -129,6 +130,15 @@ def gen_callable(r, idx, profile='mixed'):
     needle = r.choice(NEEDLES)
     where = r.choice(['comment', 'docstring', 'string'])
     nested = r.random() < 0.08          # a decorated helper nested in the body: lines that start with '@' after the first def
+    # the library's own shortcut @pedantic_require_docstring (its name CONTAINS "@pedantic"): needs a consistent Google docstring
+    docdeco = kind == 'plain' and stack == 'none' and not alias and profile != 'incomplete' and r.random() < 0.1
+    if docdeco:
+        params = [(pn, r.choice(DOC_POOL), (None if d is None else lit_src(r, 'int')[0])) for (pn, _, d) in params]
+        kwonly = [(pn, r.choice(DOC_POOL), (None if d is None else lit_src(r, 'int')[0])) for (pn, _, d) in kwonly]
+        star_ann = r.choice(['int', 'str']) if star else None
+        dstar_ann = r.choice(['int', 'str']) if dstar else None
+        ret = r.choice(['int', 'str', 'None', 'List[int]', 'bool'])
+        needle, nested = None, False
     base = r.choice([f'f{idx}'] * 6 + [f'__f{idx}', f'f{idx}__', f'_f{idx}'])
     name = base
     if kind not in ('plain', 'require_kwargs') and name.startswith('__'):
@@ -159,6 +169,15 @@ def gen_callable(r, idx, profile='mixed'):
 
     def body(ind):
         lines = []
+        if docdeco:
+            doc = [f'{ind}""" Generated.', '']
+            documented = [(pn, ann) for (pn, ann, _) in params] + ([('args', star_ann)] if star else []) + \
+                [(pn, ann) for (pn, ann, _) in kwonly] + ([('kwargs', dstar_ann)] if dstar else [])
+            if documented:
+                doc += [f'{ind}Args:'] + [f'{ind}    {pn} ({ann}): a value' for pn, ann in documented] + ['']
+            if ret != 'None':
+                doc += [f'{ind}Returns:', f'{ind}    {ret}: the result', '']
+            lines += doc + [f'{ind}"""']
         if needle and where == 'docstring':
             lines.append(f'{ind}""" doc: {needle} """')
         if needle and where == 'comment':
@@ -175,7 +194,7 @@ def gen_callable(r, idx, profile='mixed'):
     cls = None
     access = []
     if kind in ('plain', 'require_kwargs'):
-        deco0 = ped if kind == 'plain' else '@require_kwargs'
+        deco0 = ('@pedantic_require_docstring' if docdeco else ped) if kind == 'plain' else '@require_kwargs'
         decos = {'none': [deco0], 'outer': ['@passthru', deco0], 'inner': [deco0, '@passthru']}[stack]
         src = ''.join(x + '\n' for x in decos) + f'{d} {name}({sig(None)}){retann}:\n' + body('    ')
         twin = ''.join(x + '\n' for x in decos if x == '@passthru') + f'{d} {name}({sig(None)}){retann}:\n' + body('    ')
@@ -408,6 +427,8 @@ def gen_body(r, desc):
         return ['retzoo', k]
     if x < 0.12:
         return ['raises', r.choice(['Exception', 'BaseException', 'Pedantic', 'TypeError'])]
+    if (ret is None or ret[0] == 'bare') and x < 0.32:
+        return ['ret', K.lit(None)]           # a function without (complete) return annotation that simply falls off its end
     want = ret if ret is not None and ret[0] not in ('bare', 'special') else K.cls_term(int)
     if ret is not None and ret == ["none"]:
         vt = K.lit(None)
